@@ -86,6 +86,11 @@ let handle toks =
         match a 0 with
         | "snap" -> Buffer.add_string out ("{" ^ snap !st ^ "} ")
         | "fin" -> Buffer.add_string out (assemble !evs !st ^ " ")
+        | "dir" -> (* the buffer is directly available iff front and back share the single first page *)
+            let half = iz pAGE_SIZE / 2 in
+            let s = !st in
+            if iz s.e_cap = 0 || iz s.e_front > half || iz s.e_back > half then Buffer.add_string out "D:null "
+            else Buffer.add_string out (Printf.sprintf "D:%d:ok " (iz s.e_used))
         | "evs" -> (* emit calls since the last reset: ref:len,... *)
             let l = List.rev_map (fun e -> Printf.sprintf "%d:%d" (iz e.ev_ref) (List.length e.ev_bytes)) !evs in
             Buffer.add_string out ((if l = [] then "-" else String.concat "," l) ^ " ")
